@@ -717,6 +717,175 @@ fn part_e(out: &mut Outcome) -> u64 {
     n
 }
 
+// ---------------------------------------------------------------------------------------------------------
+// Part F: operations of a transaction CONTROLLER (declare, commit, rollback are sends on the control link whose
+// outcome is awaited) pending when the coordinator detaches the control link, ends the session, closes, or the
+// transport goes away.
+
+#[derive(Debug, Clone, Copy, PartialEq, Eq, Hash)]
+pub enum FOp {
+    Declare,
+    Commit,
+    Rollback,
+}
+#[derive(Debug, Clone, Copy, PartialEq, Eq, Hash)]
+pub enum FFlt {
+    CtlDetachOpenErr,
+    CtlDetachClosedErr,
+    CtlDetachClosed,
+    PeerEndErr,
+    PeerCloseErr,
+    Eof,
+}
+pub const FOPS: [FOp; 3] = [FOp::Declare, FOp::Commit, FOp::Rollback];
+pub const FFAULTS: [FFlt; 6] = [FFlt::CtlDetachOpenErr, FFlt::CtlDetachClosedErr, FFlt::CtlDetachClosed, FFlt::PeerEndErr, FFlt::PeerCloseErr, FFlt::Eof];
+
+#[derive(Debug, Clone, Default)]
+pub struct FObs {
+    pub machinery: Option<String>,
+    pub result: String,
+    pub was_pending: bool,
+    pub trace: Vec<String>,
+}
+
+pub async fn scenario_f(opk: FOp, flt: FFlt) -> FObs {
+    use fe2o3_amqp::transaction::{Controller, Transaction, TransactionDischarge};
+    use fe2o3_amqp_types::definitions::Role;
+    use fe2o3_amqp_types::messaging::DeliveryState;
+    use fe2o3_amqp_types::transaction::Declared;
+    use vlib::peer::{Body, Dirn};
+    let mut obs = FObs::default();
+    let mut auto = Auto::default();
+    auto.max_frame_size = 4096;
+    auto.grant_credit = Some(100);
+    auto.accept_transfers = false;
+    let mut c = match scen::open_client(auto, 4096).await {
+        Ok(c) => c,
+        Err(e) => {
+            obs.machinery = Some(e);
+            return obs;
+        }
+    };
+    let mut session = match scen::begin(&mut c, Session::builder()).await {
+        Ok(s) => s,
+        Err(e) => {
+            obs.machinery = Some(e);
+            return obs;
+        }
+    };
+    let ctrl: &'static Controller = match drive(&mut c.peer, Controller::attach(&mut session, "ctl"), scen::H).await {
+        Some(Ok(x)) => Box::leak(Box::new(x)),
+        other => {
+            obs.machinery = Some(format!("part F: controller attach: {:?}", other.map(|r| r.map(|_| ()).map_err(|e| format!("{e:?}")))));
+            return obs;
+        }
+    };
+    settle(&mut c.peer, 2).await;
+    let ctl_our_handle = c.peer.links.last().map(|l| l.our_handle).unwrap_or(0);
+    // the last delivery the library sent on the control link, and an answer to it
+    let last_transfer = |peer: &vlib::peer::Peer| {
+        peer.trace.iter().rev().find_map(|w| match (&w.body, w.dir) {
+            (Body::Perf(Performative::Transfer(t)), Dirn::FromLib) => t.delivery_id,
+            _ => None,
+        })
+    };
+    let task: tokio::task::JoinHandle<String> = match opk {
+        FOp::Declare => tokio::spawn(async move { op(async { Transaction::declare(ctrl, None).await.map(|_| ()) }).await }),
+        FOp::Commit | FOp::Rollback => {
+            // declare first, answered by the scripted coordinator
+            let dfut = Transaction::declare(ctrl, None);
+            tokio::pin!(dfut);
+            let mut answered = false;
+            let start = tokio::time::Instant::now();
+            let txn = loop {
+                tokio::select! { biased;
+                    r = &mut dfut => break r.ok(),
+                    _ = tokio::time::sleep(Duration::from_millis(1)) => {
+                        c.peer.pump();
+                        if !answered {
+                            if let Some(id) = last_transfer(&c.peer) {
+                                let st = DeliveryState::Declared(Declared { txn_id: serde_bytes::ByteBuf::from(b"txn-f".to_vec()) });
+                                c.peer.send(0, Performative::Disposition(Disposition { role: Role::Receiver, first: id, last: None, settled: true, state: Some(st), batchable: false }));
+                                answered = true;
+                            }
+                        }
+                        if start.elapsed() > scen::H { break None; }
+                    }
+                }
+            };
+            let Some(txn) = txn else {
+                obs.machinery = Some(format!("part F: the declare before the {:?} did not succeed; trace {:?}", opk, trace_to_strings(&c.peer.trace)));
+                return obs;
+            };
+            let commit = opk == FOp::Commit;
+            tokio::spawn(async move { op(async { if commit { txn.commit().await } else { txn.rollback().await } }).await })
+        }
+    };
+    settle(&mut c.peer, 3).await;
+    obs.was_pending = !task.is_finished();
+    let cond = || amqp_error(AmqpError::ResourceLimitExceeded, "peer says no");
+    match flt {
+        FFlt::CtlDetachOpenErr => c.peer.send(0, Performative::Detach(Detach { handle: Handle(ctl_our_handle), closed: false, error: Some(cond()) })),
+        FFlt::CtlDetachClosedErr => c.peer.send(0, Performative::Detach(Detach { handle: Handle(ctl_our_handle), closed: true, error: Some(cond()) })),
+        FFlt::CtlDetachClosed => c.peer.send(0, Performative::Detach(Detach { handle: Handle(ctl_our_handle), closed: true, error: None })),
+        FFlt::PeerEndErr => c.peer.send(0, Performative::End(End { error: Some(cond()) })),
+        FFlt::PeerCloseErr => c.peer.send(0, Performative::Close(Close { error: Some(cond()) })),
+        FFlt::Eof => c.pipe.break_now(FaultMode::Eof),
+    }
+    // the op() wrapper gives up after OP_TIMEOUT of virtual time
+    let start = tokio::time::Instant::now();
+    while !task.is_finished() && start.elapsed() < OP_TIMEOUT + Duration::from_secs(5) {
+        tokio::time::sleep(Duration::from_secs(1)).await;
+        c.peer.pump();
+    }
+    obs.result = if task.is_finished() { task.await.unwrap_or_else(|e| format!("task died: {e}")) } else { "TIMEOUT".into() };
+    obs.trace = trace_to_strings(&c.peer.trace);
+    drop(session);
+    obs
+}
+
+fn judge_f(opk: FOp, flt: FFlt, o: &FObs) -> Vec<(String, String)> {
+    let mut f = vec![];
+    let what = format!("controller op {:?} pending={}, fault {:?}", opk, o.was_pending, flt);
+    if o.result == "TIMEOUT" {
+        f.push((format!("controller-op-hangs op={:?} fault={:?}", opk, flt), format!("{what}: the call never returned ({} s of virtual time); trace {:?}", OP_TIMEOUT.as_secs(), o.trace)));
+    } else if o.result == "ok" {
+        f.push((format!("controller-op-ok-after-fault op={:?} fault={:?}", opk, flt), format!("{what}: the coordinator never answered, yet the call returned Ok")));
+    } else if matches!(flt, FFlt::CtlDetachOpenErr | FFlt::CtlDetachClosedErr | FFlt::PeerEndErr | FFlt::PeerCloseErr) && !o.result.contains(COND_DBG) {
+        f.push((format!("controller-op-lost-peer-error op={:?} fault={:?}", opk, flt), format!("{what}: the peer supplied the condition resource-limit-exceeded, the call reports {}", o.result)));
+    }
+    f
+}
+
+fn part_f(out: &mut Outcome) -> u64 {
+    let mut n = 0;
+    for opk in FOPS {
+        for flt in FFAULTS {
+            let scen: Scenario<FObs> = Arc::new(move || Box::pin(scenario_f(opk, flt)));
+            let ex = run_exec(vec![], &RunCfg::none(), &scen);
+            n += 1;
+            let rj = json!({"part": "F", "op": format!("{:?}", opk), "fault": format!("{:?}", flt)});
+            match ex.out {
+                None => out.machinery_errors.push(format!("part F scenario died: {:?}", ex.panics)),
+                Some(o) => {
+                    if let Some(m) = &o.machinery {
+                        out.machinery_errors.push(m.clone());
+                        continue;
+                    }
+                    if !o.was_pending {
+                        out.machinery_errors.push(format!("part F {:?}/{:?}: the operation was not pending when the fault came ({})", opk, flt, o.result));
+                        continue;
+                    }
+                    for (s, d) in judge_f(opk, flt, &o) {
+                        out.violation(s, d, rj.clone());
+                    }
+                }
+            }
+        }
+    }
+    n
+}
+
 pub async fn scenario_a(fault: Option<Fault>) -> AObs {
     let mut obs = AObs::default();
     let (pipe, a, b) = Pipe::new();
@@ -1355,6 +1524,8 @@ pub fn run(ctx: &Ctx) -> Outcome {
     // ---- Part E: the listener's sender on a plain and on a transaction-enabled session
     let n_e = part_e(&mut out);
     out.set("part_e_listener_cases", n_e);
+    let n_f = part_f(&mut out);
+    out.set("part_f_controller_cases", n_f);
     // ---- Part C: peer-initiated close/end/detach behind every write of the library
     let basec = {
         let scen: Scenario<CObs> = Arc::new(|| Box::pin(scenario_c(None)));
